@@ -22,6 +22,11 @@ package fs
 //@   pure
 // File-system writes used by callers under contract: opaque.
 //@ assume func (PathHasher).MoveHash
+//@   modifies hasher.memo
+//@ assume func (PathHasher).CopyHash
+//@   modifies hasher.memo
+//@ assume func (PathHasher).SetHash
+//@   modifies hasher.memo
 // (they change the file system, which is not part of the modelled state, and no Go heap)
 //@ assume func RemoveAll
 //@   modifies nothing
@@ -97,3 +102,31 @@ package fs
 //@      d.Name() == "plz-out" && rootPath == "." ==> result == filepath.SkipDir
 //@ assume func RecursiveLink
 //@   modifies nothing
+
+// ---------------------------------------------------------------------------------------------
+// Atomic file replacement (C32): WriteFile
+//
+// The destination is touched only by the final rename; everything before it (create, copy, close, chmod)
+// happens on a temporary file created in the SAME directory (so the rename is within one file system). A
+// crash at any earlier point leaves the destination as it was.
+//@ func renameFile
+//@   opt nopanic=off
+//@   callsite os.Rename whole_file_in_one_step [C32]: arg_oldpath == from && arg_newpath == to
+//@   callsite copyFile only_when_rename_is_impossible [C32]: called("os.Rename") && arg_from == from && arg_to == to
+//@ func WriteFile
+//@   opt nopanic=off
+//@   callsite os.CreateTemp beside_the_destination [C32]: arg_dir == first(filepath.Split(to))
+//@   callsite os.Chmod on_the_temporary [C32]: arg_name == tempFile.Name()
+//@   callsite renameFile last_and_complete [C32]: arg_to == to && arg_from == tempFile.Name() && \
+//@      called("(File).Close") && called("os.Chmod") && called("io.Copy")
+//@   ensures success_means_renamed [C32]: result == nil ==> called("renameFile")
+
+// Reading a stored attribute is a function of the file system, which is fixed within one decision.
+//@ assume func ReadAttr
+//@   pure
+//@ assume func ReadAttrFile
+//@   pure
+
+// For callers, a glob is a function of the file system (fixed within one decision) and its arguments.
+//@ assume func Glob
+//@   pure
